@@ -202,7 +202,8 @@ func (c *connection) onProcess(onConnect OnConnect, onRequest OnRequest) (proces
 				// closed by poller or user while the handler was running: their closeCallback could not
 				// take the processing lock. Run the callbacks here and keep holding the lock, as the
 				// normal exit path does, so that a later Close cannot run them a second time.
-				c.closeCallback(false, false)
+				// A user-side Close/Detach could not take the lock either and has not detached the fd.
+				c.closeCallback(false, c.status(closing) == user)
 				return
 			}
 			c.unlock(processing)
@@ -275,7 +276,9 @@ func (c *connection) onProcess(onConnect OnConnect, onRequest OnRequest) (proces
 				// input that arrived while this task was exiting is offered to the handler first
 				goto START
 			}
-			c.closeCallback(false, false)
+			// closed by the poller: the fd is detached already. Closed by the user (Close/Detach came
+			// after the loop's last check and found the lock taken): nobody has detached it yet.
+			c.closeCallback(false, c.status(closing) == user)
 			panicked = false
 			return
 		}
